@@ -1,4 +1,5 @@
 """Outgoing.tla : C04, C05, C06"""
+import json
 import specs
 from specs import graph_property
 
@@ -34,7 +35,7 @@ def cfg(name, tiers, c, shards=14, rej_sample=0, chains=("eth",), **kw):
 
 
 DEV = consts(1, 1, 0, 1, 1, 2, [1], [0], [1])
-POOL_Q = consts(2, 1, 0, 1, 1, 2, [1, 2], [0, 2], [1, 3])
+POOL_Q = consts(2, 2, 0, 1, 1, 3, [1, 2], [0, 2], [1, 3])
 CALL_Q = consts(0, 0, 2, 0, 2, 4, [1], [0], [1])
 MIX_Q = consts(1, 1, 1, 0, 2, 4, [1], [0], [1])
 POOL_T = consts(2, 2, 0, 2, 2, 3, [1, 2], [0, 2], [1, 3])
@@ -59,18 +60,38 @@ GEN = [
 ]
 
 
+ASSUMPTIONS = [
+    "token = FX (bridge token registered at keeper level, module pre-funded with liquidity); other token kinds are exercised by Erc20/Tolerated specs",
+    "the external chain is simulated by the harness with FxBridgeLogic.sol's rules (block.number < timeout, batch nonce increasing per token, bridge-call nonce once); its state travels in a harness-private key of the module store",
+    "one honest oracle holds all power: observation = one claim, in event-nonce order (vote interleavings are Attest.tla's subject)",
+    "user operations enter as Cosmos messages through the real router; executeClaim through the real precompile in an EVM transaction",
+    "FxBlock runs the application's real EndBlocker/BeginBlocker on the branch; fxcore's height is set far above all external heights",
+]
+
+
 def outgoing(pid):
     def run(work, args):
-        return graph_property(
-            work, args, pid=pid, module="Outgoing", mcmodule="OutgoingMC", pkg="outgoing", formulas=FORMULAS[pid],
-            mc_cfgs=MC, gen_cfgs=GEN, reset_op=RESET, level_note="", design_ref="5/C04-C06",
-            assumptions=[
-                "token = FX (bridge token registered at keeper level, module pre-funded with liquidity); other token kinds are exercised by Erc20/Tolerated specs",
-                "the external chain is simulated by the harness with FxBridgeLogic.sol's rules (block.number < timeout, batch nonce increasing per token, bridge-call nonce once); its state travels in a harness-private key of the module store",
-                "one honest oracle holds all power: observation = one claim, in event-nonce order (vote interleavings are Attest.tla's subject)",
-                "user operations enter as Cosmos messages through the real router; executeClaim through the real precompile in an EVM transaction",
-                "FxBlock runs the application's real EndBlocker/BeginBlocker on the branch",
-            ])
+        kw = dict(pid=pid, module="Outgoing", mcmodule="OutgoingMC", pkg="outgoing", formulas=FORMULAS[pid],
+                  mc_cfgs=MC, gen_cfgs=GEN, reset_op=RESET, level_note="", design_ref="5/C04-C06", assumptions=ASSUMPTIONS)
+        rp = getattr(args, "replay", None)
+        if pid != "C06" or (rp and "Oracle" not in json.load(open(rp)).get("consts", {})):
+            return graph_property(work, args, **kw)
+        # C06 has one clause that lives in the attestation logic: the observed external height is set by
+        # OBSERVED events only (a minority vote must not move it).  Attest.tla carries that formula.
+        import spec_attest
+        akw = dict(pid=pid, module="Attest", mcmodule="AttestMC", pkg="attest",
+                   formulas=dict(invariants=["C06_HeightFromObservedOnly"], properties=[], p_properties=[]),
+                   mc_cfgs=[c for c in spec_attest.ATTEST_MC if c["name"] == "mc2"],
+                   gen_cfgs=[dict(c, tiers=["quick", "thorough", "dev"]) for c in spec_attest.ATTEST_GEN if c["name"] == "gen2odd"],
+                   reset_op=spec_attest.ATTEST_RESET, level_note="", design_ref="5/C06", assumptions=[], never_ok=("Unbond",))
+        if getattr(args, "replay", None):
+            return graph_property(work, args, **akw)
+        rc1, ev1, viol1, dev1 = graph_property(work, args, write=False, **kw)
+        if viol1:
+            return specs.finish(work, pid, ev1, ASSUMPTIONS, viol1, dev1)
+        rc2, ev2, viol2, dev2 = graph_property(work, args, write=False, **akw)
+        ev = specs.merge_evidence(ev1, ev2)
+        return specs.finish(work, pid, ev, ASSUMPTIONS + ["the clause 'observed external height only from observed events' is checked on Attest.tla (vote interleavings of two oracles)"], viol2, dev1 + dev2)
     return run
 
 
